@@ -1277,8 +1277,13 @@ class Node:
             self.logger.warning(
                 f"{conn} CER rejected with {message.result_code} (message: "
                 f"{message.error_message}), closing connection")
-            self.close_connection_socket(
-                conn, DISCONNECT_REASON_CER_REJECTED)
+            # this runs in the read thread of the connection; the socket and
+            # the connection tables belong to the connection thread, which is
+            # asked to close the socket
+            peer = self._find_connection_peer(conn)
+            if peer:
+                peer.disconnect_reason = DISCONNECT_REASON_CER_REJECTED
+            conn.close()
             return
 
         # TODO: for SCTP, compare configured IP addresses with advertised and
